@@ -163,4 +163,33 @@ the supervisor's own start fail: there is no supervisor then) -/
 def boot {σ : Type} (M : Machine σ) (fuel : Nat) (r : σ × Res) : Loop σ :=
   afterCall M fuel false [] { m := r.1 } r
 
+
+/-! ### the three closed systems.  The fuel is larger than the number of specs, which bounds the number of
+spawns one `handleAction` can perform. -/
+
+def ofoStep (c : Loop OFO) (l : Label) : Option (Loop OFO) := step ofoMachine (c.m.spec.length + 3) c l
+def ofoBoot (sp : SupSpec) : Loop OFO := boot ofoMachine (sp.children.length + 3) (OFO.init {} sp)
+def arfoStep (c : Loop ARFO) (l : Label) : Option (Loop ARFO) := step arfoMachine (c.m.spec.length + 3) c l
+def arfoBoot (sp : SupSpec) : Loop ARFO := boot arfoMachine (sp.children.length + 3) (ARFO.init {} sp)
+def sofoStep (c : Loop SOFO) (l : Label) : Option (Loop SOFO) := step sofoMachine 3 c l
+def sofoBoot (sp : SupSpec) : Loop SOFO := boot sofoMachine 3 (SOFO.init {} sp)
+
+/-- what ProcessInit validates: at least one child, no empty and no duplicate names -/
+def ValidSpec (sp : SupSpec) : Prop :=
+  sp.children ≠ [] ∧ (sp.children.map (·.1)).Nodup ∧ ∀ n ∈ sp.children.map (·.1), n ≠ 0
+
+/-- no label of the history makes a spawn fail -/
+def noSpawnFailure : Label → Bool
+  | .deliver _ _ bits => bits.all id
+  | .foreign _ _ bits => bits.all id
+  | .startChild _ _ bits => bits.all id
+  | .addChild _ _ bits => bits.all id
+  | .enable _ bits => bits.all id
+  | _ => true
+
+/-- nobody is being stopped and no exit is waiting to be handled -/
+def quiescent {σ : Type} (c : Loop σ) : Bool :=
+  decide (c.status = .running) && c.inflight.isEmpty &&
+    c.exitsSent.all (fun e => !(c.alive.any (fun a => a.1 == e.1)))
+
 end ErgoVerif.Sup
